@@ -55,6 +55,13 @@ def base_cases(tier):
         cs.append(("rank", "rat", c))
     for c in wk:
         cs.append(("weak", "int", c))
+    # decimal weights whose float sums depend on the order of addition (0.1 + 0.2 + 0.3): three ballots for one candidate
+    a, b, c_ = fam.cands(3)
+    tenth = (F(1, 10), F(1, 5), F(3, 10))
+    trip = [((a,),), ((a,), (b,)), ((a,), (c_,))]
+    for ws in (tenth, (tenth[2], tenth[0], tenth[1])):
+        cs.append(("dec", "rat", (fam.cands(3), tuple(zip(trip, ws)))))
+        cs.append(("dec", "rat", (fam.cands(3), tuple(zip(trip, ws)) + ((((b,), (a,)), F(3, 5)),))))
     return cs
 
 
@@ -63,7 +70,7 @@ def build_cases(tier, seed):
     _CASES = base_cases(tier)
     meta = {
         "family": ("quick: 30 single-type + every 4th two-type profile of " if tier == "quick" else "") + "Prof(Rank(3),2,{1,2}), a slice of Prof(Rank(3),2,{1400003,999983}) and a slice of "
-                  "Prof(Weak(3),2,{1,2}) x one deterministic configuration per code path of every non-random rule + scoring utilities + "
+                  "Prof(Weak(3),2,{1,2}), four profiles with weights (1/10,1/5,3/10) on one candidate x one deterministic configuration per code path of every non-random rule + scoring utilities (exact and to_float=True) + "
                   "PairwiseComparisonGraph; transformations (all of them per base case): 3! bijections onto each of the name sets "
                   f"{NAME_SETS}, all ballot orders, splits of each ballot weight (w/2+w/2, w/4+3w/4), all 3! candidate-tuple orders; "
                   "PYTHONHASHSEED over a covering set (every iteration order of each name set and of each 2-subset occurs)",
@@ -179,7 +186,9 @@ def utilities(case, inv):
 
     prof = vkit.mk_profile(case)
     res = []
-    for fn in (U.first_place_votes, U.borda_scores, U.mentions, lambda p: U.score_profile_from_rankings(p, [3, F(1, 2)])):
+    for fn in (U.first_place_votes, U.borda_scores, U.mentions, lambda p: U.score_profile_from_rankings(p, [3, F(1, 2)]),
+               lambda p: U.first_place_votes(p, to_float=True), lambda p: U.borda_scores(p, to_float=True),
+               lambda p: U.mentions(p, to_float=True), lambda p: U.score_profile_from_rankings(p, [3, 0.5], to_float=True)):
         try:
             d = fn(prof)
             res.append(tuple(sorted((inv[c], v) for c, v in d.items())))
